@@ -74,10 +74,18 @@ func opCborProg(args []Sx) Sx {
 
 // ---- cbor_dec: a sequence of decode calls on one reader -------------------
 
+// a reader that hides Len()/WriterTo of the underlying bytes.Reader (like a file or a network body)
+type plainReader struct{ r io.Reader }
+
+func (p plainReader) Read(b []byte) (int, error) { return p.r.Read(b) }
+
 func opCborDec(args []Sx) Sx {
 	kinds, input := args[0].L, args[1].B
 	rd := bytes.NewReader(input)
 	var r io.Reader = rd
+	if len(args) > 2 && args[2].IsSym("nolen") {
+		r = plainReader{rd}
+	}
 	d := vh.CborNewDecoder(r)
 	vals := []Sx{}
 	for _, k := range kinds {
@@ -170,7 +178,43 @@ func opCborDecSegments(args []Sx) Sx {
 	return L(out...)
 }
 
+// cbor_map_twice (entries): the SAME entry objects are encoded by two EncodeMap calls (two sinks)
+func opCborMapTwice(args []Sx) (res Sx) {
+	defer func() {
+		if r := recover(); r != nil {
+			res = L(Sym("panic"))
+		}
+	}()
+	var inner error
+	mes := []*vh.CborMapEntryEncoder{}
+	for _, ent := range args {
+		ent := ent
+		mes = append(mes, vh.CborGenerateMapEntry(func(k *vh.CborEncoder, v *vh.CborEncoder) {
+			if err := runItems(k, ent.L[0].L); err != nil && inner == nil {
+				inner = err
+			}
+			if err := runItems(v, ent.L[1].L); err != nil && inner == nil {
+				inner = err
+			}
+		}))
+	}
+	if inner != nil {
+		return L(ErrV(), ErrV())
+	}
+	out := []Sx{}
+	for i := 0; i < 2; i++ {
+		var buf bytes.Buffer
+		if err := vh.CborNewEncoder(&buf).EncodeMap(mes); err != nil {
+			out = append(out, ErrV())
+		} else {
+			out = append(out, OkV(B(buf.Bytes())))
+		}
+	}
+	return L(out...)
+}
+
 func init() {
+	regOp("cbor_map_twice", opCborMapTwice)
 	regOp("cbor_dec_segments", opCborDecSegments)
 	regOp("cbor_prog", opCborProg)
 	regOp("cbor_dec", opCborDec)
